@@ -222,6 +222,34 @@ pub fn c07(o: &Oracle, thorough: bool, _seed: u64, rep: &Report) {
         }
     }
     rep.space("all pairs of the 309 class ranges", true, (o.ranges.len() * o.ranges.len()) as u64);
+    // "sorting by rank, category or class never contradicts sorting by strength": the Invalid member of both
+    // enumerations comes after every real one (as an invalid rank compares below every valid one)
+    let invalids = [0u16, o.n_classes + 1, 32768, 65535];
+    let mut inv_pairs = 0u64;
+    for v in 1..=o.n_classes {
+        for w in invalids {
+            for (a, b, e) in [(v, w, "Less"), (w, v, "Greater")] {
+                let ev = json!({"op":"enum_cmp","a":a,"b":b});
+                let got = observe(&ev);
+                if got["name_cmp"] != e || got["class_cmp"] != e {
+                    viol(rep, ev, json!({"name_cmp": e, "class_cmp": e}), "the Invalid category / class does not come after every real one, so sorting by category or class contradicts sorting by rank");
+                }
+                inv_pairs += 1;
+            }
+        }
+    }
+    for a in invalids {
+        for b in invalids {
+            let ev = json!({"op":"enum_cmp","a":a,"b":b});
+            let got = observe(&ev);
+            if got["name_cmp"] != "Equal" || got["class_cmp"] != "Equal" {
+                viol(rep, ev, json!({"name_cmp": "Equal", "class_cmp": "Equal"}), "two invalid values do not share one category / class");
+            }
+            inv_pairs += 1;
+        }
+    }
+    rep.eval(inv_pairs * 2);
+    rep.space("every real value against four invalid values, both ways, for both enumerations", true, inv_pairs);
 }
 
 fn ord_name(o: O) -> &'static str {
@@ -304,9 +332,25 @@ pub fn c18(o: &Oracle, _thorough: bool, seed: u64, rep: &Report) {
         idxs.push(1 << b);
         idxs.push((1u64 << b) + 3);
     }
+    // small offsets from every small multiple of every power 2^8, 2^16, ... 2^56 (an index that is narrowed,
+    // or divided and then narrowed, wraps at such multiples: 13 * 2^32, 52 * 2^32, 3 * 2^16, ...)
+    for k in 0..56u64 {
+        for c in 1..=64u64 {
+            for s in [8u32, 16, 24, 32, 40, 48, 56] {
+                idxs.push((c << s).wrapping_add(k));
+                idxs.push((c << s).wrapping_sub(k + 1));
+            }
+        }
+    }
     let mut rng = Rng::new(seed ^ 0xDEC);
     for _ in 0..10_000 {
         idxs.push(rng.next() >> rng.below(64));
+    }
+    for _ in 0..10_000 {
+        // seeded: an in-range index plus a seeded multiple of 2^32 or 2^16
+        let hi = rng.next() >> rng.below(64);
+        idxs.push((hi << 32).wrapping_add(rng.below(52)));
+        idxs.push((hi << 16).wrapping_add(rng.below(52)));
     }
     let nidx = idxs.len() as u64;
     for i in idxs {
@@ -316,7 +360,7 @@ pub fn c18(o: &Oracle, _thorough: bool, seed: u64, rep: &Report) {
         }
         rep.eval(1);
     }
-    rep.space("deck index classes: 0..59, powers of two, extremes, seeded", false, nidx);
+    rep.space("deck index classes: 0..59, powers of two, extremes, offsets 0..55 from every multiple 1..64 of 2^8 .. 2^56, seeded", false, nidx);
     // preset tables as sets, higher card first, no duplicates
     for (name, exp) in &o.presets {
         let ev = json!({"op":"preset","name":name});
